@@ -153,6 +153,39 @@ def T_late_loop_in_func(n):
     return "function f() { var s = 0, i = 0; " + "s += 1; " * n + "do { i++; s += 1; } while (i < 3); return s; } f()", n + 3
 
 
+def T_dowhile_continue_far(n):
+    # the continue target (the test, after the body) is the only jump operand that grows with n
+    return "var i = 0, s = 0; do { i++; if (i % 2 == 1) continue; " + "s += 1; " * n + "} while (i < 4); s", 2 * n
+
+
+def T_for_notest_continue_far(n):
+    return "function f() { var s = 0; for (var i = 0; ; i++) { if (i >= 4) return s; if (i % 2) continue; " + "s += 1; " * n + "} } f()", 2 * n
+
+
+def T_labelled_continue_far(n):
+    return ("var s = 0; outer: for (var i = 0; i < 4; i++) { for (var j = 0; j < 2; j++) { if (i % 2) continue outer; } " + "s += 1; " * n + "} s"), 2 * n
+
+
+def T_labelled_continue_dowhile_far(n):
+    return ("var s = 0, i = 0; outer: do { i++; for (var j = 0; j < 2; j++) { if (i % 2) continue outer; } " + "s += 1; " * n + "} while (i < 4); s"), 2 * n
+
+
+def T_forin_continue_far(n):
+    return "var s = 0; for (var k in {a: 1, b: 2, c: 3, d: 4}) { if (k === 'a' || k === 'c') continue; " + "s += 1; " * n + "} s", 2 * n
+
+
+def T_forof_break_far(n):
+    return "var s = 0; for (var v of [1, 2, 3, 4]) { if (v === 3) break; " + "s += 1; " * n + "} s", 2 * n
+
+
+def T_switch_in_loop_far(n):
+    return "var s = 0; for (var i = 0; i < 4; i++) { switch (i % 2) { case 1: continue; default: " + "s += 1; " * n + "} } s", 2 * n
+
+
+def T_try_in_loop_continue_far(n):
+    return "var s = 0, i = 0; do { i++; try { if (i % 2) continue; " + "s += 1; " * n + "} finally { s += 0; } } while (i < 4); s", 2 * n
+
+
 def T_nested_arrays(n):
     d = min(n, 400)
     return "[" * d + "1" + "]" * d + ".length", 1
@@ -162,7 +195,8 @@ TEMPLATES = {k[2:]: v for k, v in list(globals().items()) if k.startswith("T_")}
 # bytes of code per unit, used to place scales right at the 65535 jump boundary for each jump template
 JUMPY = {"while", "for", "dowhile", "if_true", "if_false", "if_skip", "switch_bodies", "try", "and_chain", "or_chain",
          "loop_break_far", "loop_continue_far", "ternary_chain", "try_finally", "late_dowhile", "late_while",
-         "late_loop_in_func"}
+         "late_loop_in_func", "dowhile_continue_far", "for_notest_continue_far", "labelled_continue_far", "labelled_continue_dowhile_far",
+         "forin_continue_far", "forof_break_far", "switch_in_loop_far", "try_in_loop_continue_far"}
 
 
 # ---------------- worker side -----------------------------------------------------------------
